@@ -217,6 +217,18 @@ class RecList(ExtObj):
             return None
         if name == 'copy' and not args:
             return ex.alloc(self.clone())
+        if name == 'pop' and len(args) <= 1 and not kwargs:
+            # lst.pop([i]): IndexError when the list is empty / the index is out of range (like lst[i]); the element
+            # read is materialised as for lst[i] (an escaped object), then that position is removed from every column
+            idx = M.norm_index(ex, M.plain(args[0]) if args else -1, mk_int(self.len_term()))
+            elem = self.materialise(ex, ref, idx)
+            w = ex.wobj(ref)
+            n = w.len_term()
+            if z3.is_int_value(idx) and idx.as_long() == 0:
+                w.cols = {f: Sym(z3.Extract(c.t, z3.IntVal(1), z3.simplify(n - 1)), c.k) for f, c in w.cols.items()}
+            else:
+                w.cols = {f: Sym(z3.Concat(z3.Extract(c.t, z3.IntVal(0), idx), z3.Extract(c.t, z3.simplify(idx + 1), z3.simplify(n - idx - 1))), c.k) for f, c in w.cols.items()}
+            return elem
         raise Unsupported(f'list.{name} on a record list')
 
     def ext_delitem(self, ex, ref, i):
